@@ -414,6 +414,14 @@ def check_broadcast(target, opname, opargs, result, exc, op):
     geom = 'whole' if whole else ('list' if isinstance(sl.slices, list) else 'part')
     M.bucket(f'C07/{opname}/{geom}/' + ('refused' if exc is not None else 'accepted'))
     if exc is not None:
+        if not idx and opname == 'fill_to':
+            # no wells to fold over: the request is still refused when its quantity is not one (fix 710321e)
+            try:
+                v_, b_ = R.parse_quantity(opargs[1])
+                if not (v_ > 0) or b_ not in ('L', 'g', 'mol'):
+                    return
+            except Exception:   # noqa
+                return
         if fold_exc is None:
             M.violate(['C07'] + (['C11', 'C03'] if opname == 'fill_to' else []), 'WELLWISE', f'C07:legal_plate_{opname}_refused:{type(exc).__name__}',
                       {'exc': repr(exc)[:300], 'target': F.describe(target)})
